@@ -32,6 +32,8 @@ func init() {
 			Old: "\t\tcase key == \"reference\" || key == \"timestamp\":\n\t\t\treturn fmt.Sprintf(\"%s %s ?\", key, query.DefaultComparisonOperatorsMapping[operator]), []any{value}, nil", New: "\t\tcase key == \"reference\" || key == \"timestamp\":\n\t\t\treturn fmt.Sprintf(\"? %s ?\", query.DefaultComparisonOperatorsMapping[operator]), []any{bun.Ident(\"transactions.reference\"), value}, nil", Expect: "none", Benign: true},
 		Mutant{Property: "C20", Name: "pit-as-safe-query-from-request", File: acc,
 			Old: "\t\t\tWhere(\"accounts.address = ?\", q.Addr).", New: "\t\t\tWhere(\"accounts.address = ?\", bun.Safe(\"'\"+q.Addr+\"'\")).", Expect: "R20d:"},
+		Mutant{Property: "C20", Name: "rendered-subquery-formatted-again-with-args", File: txs,
+			Old: "Join(fmt.Sprintf(`left join lateral (%s) as transactions_metadata on true`, selectMetadata.String())).", New: "Join(fmt.Sprintf(`left join lateral (%s) as transactions_metadata on true and ? is not null`, selectMetadata.String()), store.name).", Expect: "R20e:"},
 		Mutant{Property: "C20", Name: "unknown-key-passed-through", File: logs,
 			Old: "\t\t\t\tdefault:\n\t\t\t\t\treturn \"\", nil, fmt.Errorf(\"unknown key '%s' when building query\", key)", New: "\t\t\t\tdefault:\n\t\t\t\t\treturn key + \" = ?\", []any{value}, nil", Expect: "R20a:(*internal/storage/ledgerstore.Store).logsQueryBuilder$1$1:key-never-becomes-sql-text"},
 		Mutant{Property: "C20", Name: "combinator-operator-from-client", File: expr,
